@@ -243,7 +243,8 @@ PROGFUZZ = {
                      "every non-parameter identifier of a macro body is bound inside that body (free ones are outside the documented promise)"],
     ),
     "C09": dict(
-        quick=dict(programs=48, cases=12), thorough=dict(programs=400, cases=40),
+        # (thorough: 220 bases with about ten packagings each; more do not link into one runner binary)
+        quick=dict(programs=48, cases=12), thorough=dict(programs=220, cases=70),
         level="exploration",
         rule=("Base program (full grammar) as ascent!, plus a seeded choice of up to 6 packagings out of: ascent_run! / ascent_run_par! "
               "with the inputs as captured locals (fed by `for t in local.iter()` rules or by `relation r(..) = local`), "
